@@ -813,3 +813,26 @@ func (m *Model) ItemKey(loc, id string) string {
 	}
 	return CanonSet(it.Body)
 }
+
+// SetPropRaw models the low-level property write (SetProp on the state): no
+// enablement or key checks, the item is {"id":target,"!prop":val,"deleteWith":[target]}.
+func (m *Model) SetPropRaw(loc, target, prop string, val interface{}) {
+	l := m.Loc(loc)
+	m.Purge(l)
+	it, _, err := m.prepare("", map[string]interface{}{"id": target, "!" + prop: Clone(val), "deleteWith": []interface{}{target}})
+	if err != nil {
+		return
+	}
+	l.Items[it.Id] = it
+	m.noteWrite(l, it)
+}
+
+// RemRaw removes an item and its dependents without any check.
+func (m *Model) RemRaw(loc, id string) {
+	l := m.Loc(loc)
+	m.Purge(l)
+	for _, r := range m.rem(l, id) {
+		delete(m.unc(l), r)
+	}
+	delete(m.unc(l), id)
+}
